@@ -7,32 +7,112 @@ import oracles as O
 POS = (0.2, 3.0)
 
 
-def cog_unit(i, spec=None, rt=None, heat=None, extra_props=(), kfun=None, n=4):
+def pde_replay(module, cls, params, r, t, k, heat=None, eqs=('mass', 'momentum', 'energy'), thresh=1e-4):
+    def f():
+        res = H.run_real(O.PDE_SCRIPT, [{'module': module, 'class': cls, 'params': params, 'r': r, 't': t, 'k': k,
+                                         'heat': list(heat) if heat else None}])[0]
+        if 'error' in res:
+            return None
+        bad = {e: res[e] for e in eqs if res[e] == res[e] and res[e] > thresh}
+        if bad:
+            return {'solver': cls, 'params': params or 'defaults', 'r': r, 't': t, 'normalised_residuals': bad}
+        return None
+    return f
+
+
+def only_eqs(*eqs):
+    """a failing input is covered by a known finding when only these equations fail"""
+    def cov(fi):
+        bad = [e for e, v in fi['normalised_residuals'].items() if v == v and v > 1e-5]
+        return all(e in eqs for e in bad)
+    return cov
+
+
+def cog_unit(i, spec=None, rt=None, heat=None, props=None, kfun=None, n=4, findings=(), always_oracle=False, covers=None):
     nm = 'cog%d' % i
     spec = spec or {}
-    return flow.Unit(nm, groups=[nm], props=['props/C01_%s.v' % nm] + list(extra_props),
+    base = O.pde_oracle('Cog%d' % i, nm, spec=spec, rt=rt, heat=heat, kfun=kfun)
+    if covers:
+        def oracle(rng, tier, reasons):
+            return [f for f in base(rng, tier, reasons) if not covers(f)]
+    else:
+        oracle = base
+    return flow.Unit(nm, groups=[nm], props=(['props/C01_%s.v' % nm] if props is None else props),
                      corr=[dict(gen='Cog%d' % i, pfx=nm, n=n, spec=spec, rt=rt)],
-                     oracle=O.pde_oracle('Cog%d' % i, nm, spec=spec, rt=rt, heat=heat, kfun=kfun))
+                     oracle=oracle, findings=findings, always_oracle=always_oracle)
 
 
 G = {'gamma': (1.1, 2.5)}
 KC = 4 * 137.20 * 2.997e10 / 3      # 4 a c / 3 with the constants hard-coded in the conduction solvers
+COGM = 'exactpack.solvers.cog.'
 
 
 def tau_rt(rng, p):
     return round(rng.uniform(0.1, 3.0), 5), round(rng.uniform(0.05, 0.9) * p['tau'], 5)
 
 
+def heat_params(p):
+    return (KC * p['lambda0'], p['alpha'], p['beta'])
+
+
+def cog20_rt(rng, p):
+    t = round(rng.uniform(0.1, 0.8) / abs(p['a']), 5)
+    return round(rng.uniform(0.02, 3.0), 5), t
+
+
+def cog20_cov(fi):
+    # known: energy in the post-shock region when gamma <> (k+3)/(k+1)
+    p = fi['params']
+    s = p['u0'] * (p['gamma'] - 1) / (4 * p['a']) * fi['t'] * (1 - 2 * p['a'] * fi['t']) / (1 - p['a'] * fi['t'])
+    return fi['r'] < s and only_eqs('energy')(fi)
+
+
 UNITS = [
     cog_unit(1, G), cog_unit(2, G), cog_unit(3), cog_unit(4, G), cog_unit(5),
     cog_unit(6, rt=tau_rt),
+    cog_unit(7, rt=tau_rt, props=[], always_oracle=True),
     cog_unit(8, G, heat=lambda p: (1.0, p['alpha'], p['beta'])),
     cog_unit(9, G, heat=lambda p: (1.0, p['alpha'], p['beta'])),
+    cog_unit(10, G, props=[], always_oracle=True,
+             heat=lambda p: (KC * p['lambda0'], p['beta'] + 4 - 1 / (p['geometry'] - 1), p['beta'])),
     cog_unit(11, {'gamma': (1.05, 1.6)}, heat=lambda p: (1.0, p['beta'] + 4 + (p['geometry'] - 2) / (2 - (p['gamma'] - 1) * p['geometry']), p['beta'])),
     cog_unit(12, {'gamma': (0.3, 0.9), 'geometry': [2, 3]},
              heat=lambda p: (1.0, (p['beta'] + 4) * (1 - p['gamma']) + (p['geometry'] - 2) * (p['gamma'] + 1) / (2 * (p['geometry'] - 1)), p['beta'])),
+    cog_unit(13, G, heat=heat_params, covers=only_eqs('energy'),
+             findings=[dict(id='cog13-energy', refuted='props/C01_cog13_refuted.v', pending=None,
+                            what='Cog13 energy equation residual <> 0 (defaults, r=1, t=1)',
+                            replay=pde_replay(COGM + 'cog13', 'Cog13', {}, 1.0, 1.0, 2, heat=(KC * 0.1, 2.0, 1.0), eqs=('energy',)))]),
+    cog_unit(14, {'gamma': (1.1, 2.5), 'geometry': [2, 3]}, props=[], always_oracle=True, heat=heat_params),
+    cog_unit(16, {'gamma': (1.1, 2.5), 'b': (0.2, 0.9)}, props=[], always_oracle=True,
+             heat=lambda p: (KC * p['lambda0'], 1 - 1 / (p['geometry'] - 1), (1 - 1 / (p['geometry'] - 1)) / 2 - 3)),
+    cog_unit(17, {'gamma': (1.1, 2.5), 'alpha': (-3, 0.5), 'beta': (-3, 1)}, heat=heat_params, covers=only_eqs('mass', 'energy'),
+             findings=[dict(id='cog17-mass-energy', refuted='props/C01_cog17_refuted.v', pending=None,
+                            what='Cog17 mass equation residual <> 0 (geometry=3,gamma=2,alpha=-1,beta=-0.5,lambda0=0.1,Gamma=40,r=1,t=1)',
+                            replay=pde_replay(COGM + 'cog17', 'Cog17', {'geometry': 3, 'gamma': 2.0, 'alpha': -1.0, 'beta': -0.5, 'lambda0': 0.1, 'Gamma': 40.0},
+                                              1.0, 1.0, 2, eqs=('mass',)))]),
     cog_unit(18, rt=tau_rt, heat=lambda p: (1.0, p['alpha'], p['beta'])),
+    cog_unit(19, {'gamma': (1.1, 2.5), 'u0': (-3.0, -0.2)}),
+    cog_unit(20, {'gamma': (1.1, 2.5), 'a': (0.1, 0.5), 'u0': (0.5, 3.0)}, rt=cog20_rt, covers=cog20_cov,
+             findings=[dict(id='cog20-post-energy', refuted='props/C01_cog20_refuted.v', pending=None,
+                            what='Cog20 post-shock energy equation residual <> 0 for gamma <> (k+3)/(k+1) (defaults, r=0.1, t=1)',
+                            replay=pde_replay(COGM + 'cog20', 'Cog20', {}, 0.1, 1.0, 2, eqs=('energy',)))]),
+    cog_unit(21, kfun=lambda p: 2.0),
 ]
+
+NOHSPEC = {'gamma': (1.1, 2.5), 'u0': (-3.0, -0.2)}
+UNITS.append(flow.Unit('noh', groups=['noh'], props=['props/C01_noh.v'],
+                       corr=[dict(gen='Noh1', pfx='noh', n=6, spec=NOHSPEC)],
+                       oracle=O.pde_oracle('Noh1', 'noh', spec=NOHSPEC)))
+
+
+def noh2_rt(rng, p):
+    return round(rng.uniform(0.1, 3.0), 5), round(rng.uniform(0.05, 0.9), 5)
+
+
+UNITS.append(flow.Unit('noh2', groups=['noh2'], props=['props/C01_noh2.v'],
+                       corr=[dict(gen='Noh2', pfx='noh2', n=4, spec=G, rt=noh2_rt),
+                             dict(gen='Noh2Cog', pfx='noh2cog', n=4, spec=G, rt=noh2_rt)],
+                       oracle=O.pde_oracle('Noh2', 'noh2', spec=G, rt=noh2_rt)))
 
 
 def run(report, tier, rng):
